@@ -19,18 +19,18 @@ theorem handlesList_nil : handlesList [] = [] := by simp [handlesList]
 theorem handlesList_cons (k : HTree) (ks : List HTree) :
     handlesList (k :: ks) = handles k ++ handlesList ks := by simp [handlesList]
 
-theorem handlesList_append (a b : List HTree) :
+theorem fs_handlesList_append (a b : List HTree) :
     handlesList (a ++ b) = handlesList a ++ handlesList b := by
   induction a with
   | nil => simp [handlesList]
   | cons k ks ih => simp [handlesList, ih]
 
-theorem handle_mem_handles (t : HTree) : t.handle ∈ handles t := by
+theorem fs_handle_mem_handles (t : HTree) : t.handle ∈ handles t := by
   cases t with
   | node h v ks => simp [handles, HTree.handle]
 
 theorem handle_ne_of_not_mem {k : HTree} {h : Nat} (hn : h ∉ handles k) : k.handle ≠ h :=
-  fun e => hn (e ▸ handle_mem_handles k)
+  fun e => hn (e ▸ fs_handle_mem_handles k)
 
 theorem mem_handlesList {x : Nat} {ks : List HTree} :
     x ∈ handlesList ks ↔ ∃ k ∈ ks, x ∈ handles k := by
@@ -39,13 +39,13 @@ theorem mem_handlesList {x : Nat} {ks : List HTree} :
   | cons k ks ih => simp [handlesList, ih]
 
 theorem handle_mem_handlesList {k : HTree} {ks : List HTree} (h : k ∈ ks) :
-    k.handle ∈ handlesList ks := mem_handlesList.2 ⟨k, h, handle_mem_handles k⟩
+    k.handle ∈ handlesList ks := mem_handlesList.2 ⟨k, h, fs_handle_mem_handles k⟩
 
 theorem find?_node (h h' : Nat) (v : Value) (ks : List HTree) :
     find? h (.node h' v ks) = if h' = h then some (.node h' v ks) else findList? h ks := by
   simp [find?]
 
-theorem find?_self (t : HTree) : find? t.handle t = some t := by
+theorem fs_find?_self (t : HTree) : find? t.handle t = some t := by
   cases t with
   | node h v ks => simp [find?, HTree.handle]
 
@@ -184,21 +184,21 @@ end
 
 theorem mem_of_find?_some {h : Nat} {t u : HTree} (e : find? h t = some u) : h ∈ handles t := by
   obtain ⟨e1, e2⟩ := find?_some t u e
-  exact e1 ▸ e2 _ (handle_mem_handles u)
+  exact e1 ▸ e2 _ (fs_handle_mem_handles u)
 
 theorem mem_of_findList?_some {h : Nat} {ks : List HTree} {u : HTree} (e : findList? h ks = some u) :
     h ∈ handlesList ks := by
   obtain ⟨e1, e2⟩ := findList?_some ks u e
-  exact e1 ▸ e2 _ (handle_mem_handles u)
+  exact e1 ▸ e2 _ (fs_handle_mem_handles u)
 
 mutual
-  theorem mapAt_of_not_mem {s : Nat} {G : HTree → HTree} : ∀ t : HTree, s ∉ handles t → mapAt s G t = t
+  theorem fs_mapAt_of_not_mem {s : Nat} {G : HTree → HTree} : ∀ t : HTree, s ∉ handles t → mapAt s G t = t
     | .node h v ks => by
       intro hn
       rw [handles_node] at hn
       simp only [List.mem_cons, not_or] at hn
-      rw [mapAt_node, if_neg (fun e => hn.1 e.symm), mapAtList_of_not_mem ks hn.2]
-  theorem mapAtList_of_not_mem {s : Nat} {G : HTree → HTree} : ∀ ks : List HTree,
+      rw [mapAt_node, if_neg (fun e => hn.1 e.symm), fs_mapAtList_of_not_mem ks hn.2]
+  theorem fs_mapAtList_of_not_mem {s : Nat} {G : HTree → HTree} : ∀ ks : List HTree,
       s ∉ handlesList ks → mapAtList s G ks = ks
     | [] => by intro _; simp [mapAtList]
     | k :: ks => by
@@ -206,18 +206,18 @@ mutual
       rw [handlesList_cons] at hn
       simp only [List.mem_append, not_or] at hn
       simp only [mapAtList]
-      rw [mapAt_of_not_mem k hn.1, mapAtList_of_not_mem ks hn.2]
+      rw [fs_mapAt_of_not_mem k hn.1, fs_mapAtList_of_not_mem ks hn.2]
 end
 
 mutual
-  theorem replaceBelow_of_not_mem {h : Nat} {F : HTree → List HTree} : ∀ t : HTree,
+  theorem fs_replaceBelow_of_not_mem {h : Nat} {F : HTree → List HTree} : ∀ t : HTree,
       h ∉ handles t → replaceBelow h F t = t
     | .node p v ks => by
       intro hn
       rw [handles_node] at hn
       simp only [List.mem_cons, not_or] at hn
-      rw [replaceBelow_node, replaceKids_of_not_mem ks hn.2]
-  theorem replaceKids_of_not_mem {h : Nat} {F : HTree → List HTree} : ∀ ks : List HTree,
+      rw [replaceBelow_node, fs_replaceKids_of_not_mem ks hn.2]
+  theorem fs_replaceKids_of_not_mem {h : Nat} {F : HTree → List HTree} : ∀ ks : List HTree,
       h ∉ handlesList ks → replaceKids h F ks = ks
     | [] => by intro _; exact replaceKids_nil h F
     | k :: ks => by
@@ -225,7 +225,7 @@ mutual
       rw [handlesList_cons] at hn
       simp only [List.mem_append, not_or] at hn
       rw [replaceKids_cons, if_neg (handle_ne_of_not_mem hn.1),
-        replaceBelow_of_not_mem k hn.1, replaceKids_of_not_mem ks hn.2]
+        fs_replaceBelow_of_not_mem k hn.1, fs_replaceKids_of_not_mem ks hn.2]
 end
 
 mutual
@@ -264,7 +264,7 @@ theorem nodup_handlesList_cons {k : HTree} {ks : List HTree} (nd : (handlesList 
 theorem findList?_mid {l : List HTree} {k : HTree} {r : List HTree}
     (hn : k.handle ∉ handlesList l) : findList? k.handle (l ++ k :: r) = some k := by
   induction l with
-  | nil => exact findList?_cons_some (find?_self k)
+  | nil => exact findList?_cons_some (fs_find?_self k)
   | cons a l ih =>
     rw [handlesList_cons] at hn
     simp only [List.mem_append, not_or] at hn
@@ -276,7 +276,7 @@ theorem nodup_mid {l : List HTree} {k : HTree} {r : List HTree}
     (∀ x ∈ handles k, x ∉ handlesList l) ∧ (∀ x ∈ handles k, x ∉ handlesList r) ∧
     (∀ x ∈ handlesList l, x ∉ handlesList r) ∧
     (handlesList l).Nodup ∧ (handles k).Nodup ∧ (handlesList r).Nodup := by
-  rw [handlesList_append, handlesList_cons] at nd
+  rw [fs_handlesList_append, handlesList_cons] at nd
   obtain ⟨n1, n2, n3⟩ := List.nodup_append.1 nd
   obtain ⟨n4, n5, n6⟩ := List.nodup_append.1 n2
   refine ⟨fun x hx hl => n3 x hl x (List.mem_append_left _ hx) rfl, fun x hx hr => n6 x hx x hr rfl,
@@ -404,7 +404,7 @@ mutual
         injection e' with _ _ e3
         subst e3
         obtain ⟨m1, _, _, _, _, _⟩ := nodup_mid n2
-        have := ctxKids_skip (h := s.handle) (p := q) l [] (s :: r) (m1 _ (handle_mem_handles s))
+        have := ctxKids_skip (h := s.handle) (p := q) l [] (s :: r) (m1 _ (fs_handle_mem_handles s))
         rw [this, ctxKids_cons_hit rfl]
         simp
       · rw [if_neg hq] at e
@@ -421,8 +421,8 @@ mutual
         intro w hw
         subst hw
         simp only [HTree.kids]
-        rw [handlesList_append, handlesList_cons]
-        exact List.mem_append_right _ (List.mem_append_left _ (handle_mem_handles s))
+        rw [fs_handlesList_append, handlesList_cons]
+        exact List.mem_append_right _ (List.mem_append_left _ (fs_handle_mem_handles s))
       cases hk : find? p k with
       | some t =>
         rw [findList?_cons_some hk] at e
@@ -440,19 +440,19 @@ mutual
             · rw [if_pos hkp] at hk
               cases hk
               apply k1
-              rw [heq, handlesList_append, handlesList_cons]
-              exact List.mem_append_right _ (List.mem_append_left _ (handle_mem_handles s))
+              rw [heq, fs_handlesList_append, handlesList_cons]
+              exact List.mem_append_right _ (List.mem_append_left _ (fs_handle_mem_handles s))
             · rw [if_neg hkp] at hk
               have := (findList?_some kks _ hk).2 s.handle (by
-                rw [handles_node, handlesList_append, handlesList_cons]
-                exact List.mem_cons_of_mem _ (List.mem_append_right _ (List.mem_append_left _ (handle_mem_handles s))))
+                rw [handles_node, fs_handlesList_append, handlesList_cons]
+                exact List.mem_cons_of_mem _ (List.mem_append_right _ (List.mem_append_left _ (fs_handle_mem_handles s))))
               exact k1 (heq ▸ this)
         exact ctxKids_cons_below hne hb
       | none =>
         rw [findList?_cons_none hk] at e
         have hm : s.handle ∈ handlesList ks := (findList?_some ks _ e).2 s.handle (by
-          rw [handles_node, handlesList_append, handlesList_cons]
-          exact List.mem_cons_of_mem _ (List.mem_append_right _ (List.mem_append_left _ (handle_mem_handles s))))
+          rw [handles_node, fs_handlesList_append, handlesList_cons]
+          exact List.mem_cons_of_mem _ (List.mem_append_right _ (List.mem_append_left _ (fs_handle_mem_handles s))))
         have hnk : s.handle ∉ handles k := fun hx => n3 _ hx hm
         rw [ctxKids_cons_skip (handle_ne_of_not_mem hnk) (ctxBelow_of_not_mem k hnk)]
         exact findList_ctxKids q (left ++ [k]) ks n2 e
